@@ -156,7 +156,9 @@ def semi_module(rng):
         if parts:
             out.append('#[' + ', '.join(parts) + ']')
         if rng.random() < 0.75:
-            out.append('%stype %s%s;' % ('pub ' if pub else '', name, rng.choice(['', ' ', '  '])))
+            # both spellings of a type without statements (the Lean printer writes `;` at tr = true, `{ }` at tr = false;
+            # the driver renders with tr = true)
+            out.append('%stype %s%s' % ('pub ' if pub else '', name, rng.choice([';', ' ;', '  ;', ' {}', '{ }', ' {\n}'])))
             defs.append(type_def(pub, name, at, []))
         else:
             out.append('%stype %s { a: u32 }' % ('pub ' if pub else '', name))
